@@ -701,6 +701,8 @@ type zzC15State struct {
 	File  map[string]zzC15File  `json:"file"`
 	Count map[string]int        `json:"count"`
 	Eng   map[string][][]string `json:"eng"`
+	// En says which lists are enabled (status API); nil = not compared.
+	En map[string]bool `json:"en,omitempty"`
 }
 
 type zzC15Act struct {
@@ -724,6 +726,8 @@ type zzC15Step struct {
 	Rew    []string            `json:"rew"`
 	// SumChg are the lists whose remembered checksum changes in this step.
 	SumChg []string `json:"sumchg"`
+	// RewFree are the lists for which the replacement is not compared.
+	RewFree []string `json:"rewfree"`
 }
 
 type zzC15Tour struct {
@@ -1093,8 +1097,17 @@ func (w *zzC15World) observe() (s zzC15State, raw map[string]string, err error) 
 	}
 
 	counts := map[string]int{}
+	s.En = map[string]bool{}
 	for _, f := range append(append([]filterJSON{}, status.Filters...), status.WhitelistFilters...) {
 		counts[f.URL] = int(f.RulesCount)
+		for _, l := range w.lists {
+			if l.url == f.URL {
+				s.En[l.name] = f.Enabled
+				// What a restart of this installation would read from its
+				// configuration file.
+				l.enabled = f.Enabled
+			}
+		}
 	}
 
 	setts := &Settings{FilteringEnabled: true, ProtectionEnabled: true}
@@ -1157,13 +1170,20 @@ func zzC15EngKey(e [][]string) (s string) {
 // zzC15Diff lists the fields in which got differs from want.
 func zzC15Diff(lists []*zzC15List, want, got *zzC15State) (diffs []string) {
 	for _, l := range lists {
+		// The stored form: a list without rules may be stored as an empty
+		// file or as no file at all.
 		wf, gf := want.File[l.name], got.File[l.name]
-		if wf.Ex != gf.Ex || !zzC15SameRules(wf.Rules, gf.Rules) {
+		if !zzC15SameRules(wf.Rules, gf.Rules) {
 			diffs = append(diffs, "file:"+l.name)
 		}
 
-		if want.Count[l.name] != got.Count[l.name] {
+		// A negative count = not compared (a disabled list shows none).
+		if want.Count[l.name] >= 0 && want.Count[l.name] != got.Count[l.name] {
 			diffs = append(diffs, "count:"+l.name)
+		}
+
+		if want.En != nil && want.En[l.name] != got.En[l.name] {
+			diffs = append(diffs, "en:"+l.name)
 		}
 
 		if zzC15EngKey(want.Eng[l.name]) != zzC15EngKey(got.Eng[l.name]) {
@@ -1237,9 +1257,10 @@ func (w *zzC15World) step(act *zzC15Act, script map[string]zzC15Beh) (o *zzC15St
 		rec := httptest.NewRecorder()
 		h(rec, httptest.NewRequest(http.MethodPost, "/control/filtering/refresh", strings.NewReader(body)))
 		o.HTTPCode = rec.Code
-	case act.A == "seturl":
-		// The admin points the list at another location (same server, same
-		// script: the download from there fails) through the real handler.
+	case act.A == "seturl" || act.A == "disable" || act.A == "enable":
+		// seturl: the admin points the list at another location (same server,
+		// same script: the download from there fails); disable / enable: same
+		// URL, the enabled flag changed.  All through the real handler.
 		l := w.list(act.List)
 		h := w.mux[http.MethodPost+" /control/filtering/set_url"]
 		if l == nil || h == nil {
@@ -1248,11 +1269,25 @@ func (w *zzC15World) step(act *zzC15Act, script map[string]zzC15Beh) (o *zzC15St
 
 		body, _ := json.Marshal(map[string]any{
 			"url": l.url, "whitelist": !l.block,
-			"data": map[string]any{"name": "list " + l.name, "url": l.url + "?moved=1", "enabled": true},
+			"data": map[string]any{
+				"name": "list " + l.name, "enabled": act.A != "disable",
+				"url": map[bool]string{true: l.url + "?moved=1", false: l.url}[act.A == "seturl"],
+			},
 		})
 		rec := httptest.NewRecorder()
 		h(rec, httptest.NewRequest(http.MethodPost, "/control/filtering/set_url", bytes.NewReader(body)))
 		o.HTTPCode = rec.Code
+
+		// The handler asks the update loop to rebuild the engines; the loop
+		// is not running here, so its body is run for it.
+		select {
+		case p := <-w.d.filtersInitializerChan:
+			err = w.d.initFiltering(p.allowFilters, p.blockFilters)
+			if err != nil {
+				return nil, err
+			}
+		default:
+		}
 	case act.A == "refresh" && act.Mode == "sched":
 		// Time passes: the lists in due were last updated two intervals ago,
 		// the others just now.
@@ -1335,6 +1370,21 @@ func (w *zzC15World) checksums() (sums map[string]uint32) {
 	return sums
 }
 
+func zzC15Minus(a, b []string) (c []string) {
+	for _, x := range a {
+		keep := true
+		for _, y := range b {
+			keep = keep && x != y
+		}
+
+		if keep {
+			c = append(c, x)
+		}
+	}
+
+	return c
+}
+
 func zzC15SameSet(a, b []string) (ok bool) {
 	a, b = append([]string{}, a...), append([]string{}, b...)
 	sort.Strings(a)
@@ -1385,7 +1435,7 @@ func zzC15RunTour(tour *zzC15Tour, out *zzWriter, outMu *sync.Mutex) (steps, bad
 
 		steps++
 		diffs := zzC15Diff(w.lists, &st.Dst, &o.State)
-		if st.Act.A != "restart" && !zzC15SameSet(st.Rew, o.Rew) {
+		if st.Act.A != "restart" && !zzC15SameSet(zzC15Minus(st.Rew, st.RewFree), zzC15Minus(o.Rew, st.RewFree)) {
 			diffs = append(diffs, "rew")
 		}
 		if !zzC15SameSet(st.SumChg, o.SumChg) {
@@ -1406,7 +1456,7 @@ func zzC15RunTour(tour *zzC15Tour, out *zzWriter, outMu *sync.Mutex) (steps, bad
 		}
 
 		put(row)
-		if tour.GoOn && len(diffs) == 1 && diffs[0] == "sum" {
+		if tour.GoOn {
 			continue
 		}
 
